@@ -14,6 +14,7 @@ type c02Case struct {
 	g        *gen.Graph
 	dir      string
 	variants []string
+	noNative bool // Node cannot run the sources: the first variant is the reference instead of native execution
 }
 
 func c02Variants(r *gen.Rand, allowNoShake bool) []string {
@@ -48,7 +49,9 @@ func runGraphDiff(rep *Report, workdir string, class string, cases []c02Case, co
 		if strings.HasSuffix(c.g.Entries[0], ".cjs") {
 			entryKind = "cjs"
 		}
-		gc.Runs = append(gc.Runs, graphRun{Name: "native", File: filepath.Join(src, c.g.Entries[0]), Kind: entryKind})
+		if !c.noNative {
+			gc.Runs = append(gc.Runs, graphRun{Name: "native", File: filepath.Join(src, c.g.Entries[0]), Kind: entryKind})
+		}
 		m := &meta{c: c, outputs: map[string]map[string]string{}}
 		for vi, v := range c.variants {
 			outdir := filepath.Join(dir, fmt.Sprintf("out-%d", vi))
@@ -120,7 +123,11 @@ func runGraphDiff(rep *Report, workdir string, class string, cases []c02Case, co
 		for _, r := range rs[1:] {
 			rep.stat("compared")
 			if ok, why := sameGraphResult(native, r, compareExports); !ok {
-				rep.violate(class+"/diff/"+r.Name, "native execution and bundle differ: "+why, graphReplay{Files: m.c.g.Files, Entries: m.c.g.Entries, OptName: r.Name, Diff: why, Outputs: m.outputs[r.Name]})
+				refName := "native execution"
+				if m.c.noNative {
+					refName = "reference bundle " + m.variants[0]
+				}
+				rep.violate(class+"/diff/"+r.Name, refName+" and bundle differ: "+why, graphReplay{Files: m.c.g.Files, Entries: m.c.g.Entries, OptName: r.Name, Diff: why, Outputs: m.outputs[r.Name]})
 			}
 		}
 		if len(rep.Samples) < 2 {
